@@ -70,8 +70,9 @@ CHECKS["C05"] = {
     "level": "exploration",
     "technique": "stateful property testing (rapid) under virtual time with a write-log invariant oracle + schedule-controlled interleavings of datastore calls",
     "level_text": "Generated histories (virtual time, planted garbage, GC, restarts) and generated interleavings of concurrent Put/Get at datastore-call granularity are "
-                  "executed against the real ValueStore; the oracle is an invariant over the datastore write log (valid, correctly keyed, stamped, never downgraded, only expired "
-                  "entries deleted) plus read/put outcomes derived from it. Exploration: histories and schedules are sampled.",
+                  "executed against the real ValueStore; the oracle is an invariant over the datastore write log (valid, correctly keyed, stamped with the store's clock whatever the sender's record carried, never downgraded, only expired "
+                  "entries deleted) plus read/put outcomes derived from it. A third part drives a real IpfsDHT: local PutValue, the PUT_VALUE / GET_VALUE handlers, local reads and GetValue run as actors over one journaling value datastore, "
+                  "with every datastore call and every Validate/Select call as a yield point under a drawn schedule (a remote put can land between PutValue's own compare and its write). Exploration: histories and schedules are sampled.",
     "level_note": "Interleavings are explored at datastore calls and lock acquisitions only; the test validator is a total order on (rank, junk); the in-memory journaling "
                   "datastore stands in for the real one; ValueStore.Put is driven with rec.Key == key as all callers do (the handler-level key check is exercised at DHT level).",
     "parts": [
@@ -279,7 +280,7 @@ CHECKS["C14"] = {
     "level": "exploration",
     "technique": "property-based testing (rapid) of Close/constructor-failure schedules: under synctest with a goroutine census by id and a counting event bus (DHTs), and in real time with a harness-owned gate plus goroutine-state probe (buffered provider wrapper, record stores, whose Close paths wait on mutexes); drawn Close instants / overlaps, option matrices and injected constructor faults",
     "level_text": "For each component, generated option combinations, background activity and Close instants run against the real code inside a virtual-time bubble; the goroutines alive after construction are recorded by id and must all be gone when "
-                  "Close returns, every Close call and every in-flight operation must return without panic, and nothing may be left after the wind-down; constructors are failed at injected points and must leave no goroutine or subscription. The buffered wrapper and the record stores are closed 1-3 times with overlapping calls while their worker / an operation is held at a gate; no Close call may have returned while it is held. Exploration.",
+                  "Close returns, every Close call and every in-flight operation must return without panic, and nothing may be left after the wind-down; constructors are failed at injected points and must leave no goroutine or subscription. The buffered wrapper and the record stores are closed 1-3 times with overlapping calls while their worker / an operation is held at a gate; no Close call may have returned while it is held; the sweeping provider is also closed over a datastore that fails during Close and with the node offline. The refresh manager runs in a bubble with dial / ping / query callbacks of drawn outcome, latency and linger (time to return once the context ended): the instant a Close call returns no callback may be in flight and no goroutine of the manager blocked. Exploration.",
     "level_note": "Censuses are taken at quiescent points (synctest.Wait, which does not advance the clock): a goroutine that Close does not wait for but that ends without the clock advancing is not distinguished; Close instants are virtual instants, not arbitrary instructions.",
     "parts": [
         {"part": "ipfsdht", "pkg": ROOT, "test": "TestVerif_C14_IpfsDHT", "quick": 2400, "thorough": 20000},
